@@ -51,7 +51,7 @@ ASSUMPTIONS = [
     "quantities whose definition is unstable at the input (angles of near-zero rays, Sholl radii "
     "on a node distance) are not compared",
 ]
-REQUIRED = ["twins_measured_from_inside_a_traversal", "pairs", "rotations", "translations", "scalings", "renumberings", "library_motions",
+REQUIRED = ["sholl_objects_read_after_an_in_place_move", "twins_measured_from_inside_a_traversal", "pairs", "rotations", "translations", "scalings", "renumberings", "library_motions",
             "length_compared", "multisets_compared", "per_node_compared", "sholl_fixed_radii_compared",
             "sholl_steps_compared", "angles_compared", "orders_compared", "volume_compared",
             "small_extent_scalings", "file_sourced_trees", "tap_sholl_get",
@@ -441,6 +441,37 @@ def _exec(ctx, case):
         ctx.skip("radii within two decades of the library's absolute eps: volume not compared")
         want_volume = False
     soma_ok = int(spec["type"][0]) == 1
+    if case["mseed"] % 5 == 1 and n >= 3 and rmax > 0:
+        # a Sholl object made for a neuron whose soma sits at the origin; the neuron is then moved
+        # as a whole *in place* (column arithmetic, node handles) and the profile is read
+        # afterwards: a translation changes no count (radii midway between node distances)
+        from swcgeom.analysis import Sholl
+        from swcgeom.core import Tree as _T
+
+        X0 = (refA.X - refA.X[0]).astype(np.float32)
+        t0 = _T(n, pid=np.array(spec["pid"]), type=np.array(spec["type"]), x=X0[:, 0].copy(),
+                y=X0[:, 1].copy(), z=X0[:, 2].copy(), r=np.array(spec["r"]))
+        dist = np.unique(np.linalg.norm(X0.astype(np.float64), axis=1))
+        gaps = np.diff(dist)
+        big = np.argsort(gaps)[::-1][:6]
+        radii = np.sort([float(dist[g] + gaps[g] / 2) for g in big if gaps[g] > 1e-3 * rmax])
+        if len(radii):
+            sh = Sholl(t0)
+            before = np.array(sh.get(steps=radii))
+            shift = np.float32(rmax) * np.array([2.0, -1.0, 0.5], dtype=np.float32)
+            t0.ndata["x"] += shift[0]
+            t0.ndata["y"] = t0.ndata["y"] + shift[1]
+            for i_ in range(n):
+                t0.node(i_).z = float(t0.node(i_).z + shift[2])
+            after = np.array(sh.get(steps=radii))
+            fresh = np.array(Sholl(t0).get(steps=radii))
+            ctx.count("sholl_objects_read_after_an_in_place_move")
+            if not (np.array_equal(before, after) and np.array_equal(before, fresh)):
+                raise Mismatch("sholl-after-in-place-translation",
+                               f"Sholl profile at radii {np.round(radii, 4).tolist()}: "
+                               f"{before.tolist()} before the neuron was translated in place, "
+                               f"{after.tolist()} read from the same object afterwards, "
+                               f"{fresh.tolist()} from a new object")
     A = measure(tree, refA, radiiA, case["steps"], nodes, want_volume, soma_ok)
     if case["mseed"] % 6 == 4 and n <= 120:
         # the moved neuron measured by user code running inside a traversal of the original
